@@ -28,6 +28,8 @@ BLOCKS = {
     'deco-dependent-first': ("x = 0.5*x + G\np = x\na = p\ns = a\nv = 0.5*a + 1", {'x': {'x': 0.5}}, ['x'], ['G'], {}),
     'alias-chain':     ("x = 0.5*y + G\ny = z\nz = w\nw = 0.5*x + 1", {'x': {'w': 0.5}, 'w': {'x': 0.5}}, ['x', 'y', 'z', 'w'], ['G'], {}),
     'user-function':   ("x = 0.25*fn(x) + G\nd = fn(x)", {'x': {'x': 0.5}}, ['x'], ['G'], {'fn': lambda v: 2 * v + 1}),
+    # a user function registered under the name of a function the solver module imports from math: the equations mean the user's function
+    'user-function-math-name': ("x = 0.25*sqrt(x) + G\nd = sqrt(x)", {'x': {'x': 0.5}}, ['x'], ['G'], {'sqrt': lambda v: 2 * v + 1}),
     'division-first':  ("x = 1/Y + 0*y\ny = 0.5*y + G", {'x': {}, 'y': {'y': 0.5}}, ['x', 'y'], ['G', 'Y'], {}),
     'division-middle': ("a = 0.5*a + 1 + 0*x\nx = 2/Y + 0*y\ny = 0.25*y + G + 0*a", {'a': {}, 'x': {}, 'y': {}}, ['a', 'x', 'y'], ['G', 'Y'], {}),
     'three-coupled':   ("x = 0.5*y + G\ny = 0.25*x + 0.3*z + 1\nz = 0.2*x - 0.4*y + G",
@@ -165,7 +167,7 @@ def real_case(case):
     from vf.props.c15 import StubRender
     with StubRender():
         D.run_all(path)
-    out.update(paths=D.paths, forks=D.forks, queries=D.queries, solver_s=D.solver_s, exhaustive=D.exhaustive, dunknown=D.unknown, wall=_t.time() - _t0)
+    out.update(paths=D.paths, forks=D.forks, queries=D.queries, solver_s=D.solver_s, exhaustive=D.exhaustive, dunknown=D.unknown, wall=_t.time() - _t0, cut_paths=getattr(D, 'cut_paths', 0))
     return out
 
 
@@ -438,6 +440,12 @@ def run(tier, seed):
         what = 'real: block %s tol=%g cap=%d reduction=%s periods=%d' % tuple(o['case'][:5]) + ({'neighbour': ' with a same-named neighbour solver solved before every period', 'trace': ' with step tracing of the last period'}[o['case'][5]] if len(o['case']) > 5 else '')
         if not o['exhaustive'] or o['unknown'] or o['dunknown']:
             chk.ob('unknown', what + ' (paths %d, unknown %d)' % (o['paths'], o['unknown'] + o['dunknown']))
+            if o.get('cut_paths') and not o['viol']:
+                # the value classes could not follow the solver along some path (e.g. a C-level math function received a symbolic value): probe concretely
+                syn = ['%s@0' % n for n in BLOCKS[o['case'][0]][2]] + ['%s@%d' % (n, k) for n in BLOCKS[o['case'][0]][3] for k in range(1, o['case'][4] + 1)]
+                for pv in ('1', '9/4'):
+                    chk.probe('real:%s:%s' % (o['case'][0], o['case'][3]), what + ': concrete probe at %s after a cut symbolic path' % pv,
+                              REPLAY_REAL % dict(case=o['case'], vals={n: pv for n in syn}))
         else:
             chk.ob('sat' if o['viol'] else 'unsat', what, distinct=('real',) + tuple(o['case']))
             if o['outcomes'].get('solved'):
